@@ -770,7 +770,7 @@ func c07(r *rep.Run) {
 	c07MassOverlap(r, progs, iso)
 	// (3) race pass
 	fmt.Printf("schedules done at %.1fs\n", time.Since(r.Start).Seconds())
-	c07Race(r)
+	r.External(func() { c07Race(r) })
 	fmt.Printf("race pass done at %.1fs\n", time.Since(r.Start).Seconds())
 	r.Finish()
 }
@@ -989,10 +989,20 @@ func c07Race(r *rep.Run) {
 	if r.Thorough() {
 		iters = "3000"
 	}
-	cmd := exec.Command(bin, "C07", iters)
+	limit := 15 * time.Minute
+	if r.Thorough() {
+		limit = 90 * time.Minute
+	}
+	cctx, cancel := context.WithTimeout(context.Background(), limit)
+	defer cancel()
+	cmd := exec.CommandContext(cctx, bin, "C07", iters)
 	cmd.Env = append(os.Environ(), "GORACE=halt_on_error=0 exitcode=66")
 	out, err := cmd.CombinedOutput()
 	text := string(out)
+	if cctx.Err() != nil {
+		r.Violate("race-pass-timeout", "racepass", sprintf("the free-running concurrent harness did not finish within %v: concurrent calls block each other", limit), map[string]interface{}{"output": firstLines(text, 40)})
+		return
+	}
 	if strings.Contains(text, "WARNING: DATA RACE") {
 		r.Violate("data-race", firstRaceSite(text), "the Go race detector reports a data race between concurrent calls on one shared Expr", map[string]interface{}{"report": firstLines(text, 60)})
 		r.Cov["race_pass"] = "DATA RACE reported"
